@@ -33,6 +33,7 @@ pub fn classify_decode_panic(_s: &str, _msg: &str) -> Option<String> {
 /// `Concat[Replace(Concat[a], r), b]` and `Concat[Replace(Concat[a, b], r)]` feed the hasher the
 /// same bytes. The key is given only to pairs produced by exactly that regrouping edit.
 pub fn classify_hash_collision(kind: &str) -> Option<String> {
+  let kind = kind.split('+').next().unwrap_or(kind);
   let last = kind.rsplit('.').next().unwrap_or(kind);
   if last.starts_with("move_sibling_") && last.ends_with("_into_inner_concat_of_replace") {
     Some("KF2-concat-hash-has-no-child-boundary".to_string())
